@@ -372,6 +372,7 @@ Section ComponentsLookup.
       now apply reg_ok_subscribe.
     - destruct H as [Hu Ha]. unfold unregisterHandler, both_ok. destruct (negb (Nat.eqb n 0)); [simp; split; auto|].
       destruct (Nat.eqb _ _); simp; split; auto. now apply reg_ok_unsubscribe.
+    - exact H.
     - apply both_ok_init.
   Qed.
 
